@@ -344,7 +344,11 @@ def expect(case):
         a, stop, step = case["a"], case["stop"], case["step"]
         r = range(a) if (stop is None and step is None) else (range(a, stop) if step is None else
                                                               range(a, 2**63 - 1 if stop is None else stop, step))
-        if len(r) > 10 * MAX_INPUTS:
+        try:
+            n_r = len(r)
+        except OverflowError:       # range(-5, sys.maxsize, 1): longer than a C ssize_t
+            n_r = 2**63
+        if n_r > 10 * MAX_INPUTS:
             return ("endless", ((("N", x)) for x in r)), None
         return ("finite", [("N", x) for x in list(r)] + [("C", None)]), None
     if n in ("from_iterable", "of"):
